@@ -21,6 +21,11 @@ using namespace vf;
 #else
 #define VW_VEA 0
 #endif
+#if FASTOR_NO_ALIAS
+#define VW_NAL 1
+#else
+#define VW_NAL 0
+#endif
 static bool g_verbose = false;
 
 namespace vw {
@@ -60,7 +65,7 @@ struct Runner<T, RDims<E...>, Maker, D...> {
         for (size_t k = 0; k < dims.size(); ++k) ds += (k ? "x" : "") + std::to_string(dims[k]);
         for (size_t k = 0; k < rdims.size(); ++k) rs += (k ? "x" : "") + std::to_string(rdims[k]);
         vf::guarded([&]{
-            std::printf("vw cls=%s cfg=%s sz=%d vea=%d dims=%s rd=%s W=%s", Maker::cls(), CFGNAME, (int)sizeof(T), VW_VEA, ds.c_str(), rs.c_str(), script);
+            std::printf("vw cls=%s cfg=%s sz=%d vea=%d%s dims=%s rd=%s W=%s", Maker::cls(), CFGNAME, (int)sizeof(T), VW_VEA, VW_NAL ? " nal=1" : "", ds.c_str(), rs.c_str(), script);
             std::fflush(stdout);
             arena.reset(); pool.reset();
             TA* A = arena_tensor<TA>(0); TA* B = arena_tensor<TA>(1); TA* C = arena_tensor<TA>(2);
@@ -83,12 +88,12 @@ struct Runner<T, RDims<E...>, Maker, D...> {
                 T c(w.c);
                 if (!w.keep || !held) { held.reset(new VT(Maker::make(*A, w.dst, rk))); flag = false; }
                 if (w.na) flag = true;
-                const bool guarded = flag && w.rk != 's';
+                const bool guarded = flag && w.rk != 's' && !VW_NAL;   // FASTOR_NO_ALIAS=1 compiles the guard out
                 if (guarded) flag = false;
                 vf::trace.clear(); vf::trace.on = true;
                 {
                     VT& v = *held;
-                    if (w.na) v.noalias();
+                    if (w.na) Maker::noalias(v);
                     switch (w.rk) {
                     case 's': apply_op(w.op, v, c); break;
                     case 'v': apply_op(w.op, v, mkview(*B, w.src, rk)); break;
@@ -109,7 +114,7 @@ struct Runner<T, RDims<E...>, Maker, D...> {
                 wseq = hstep(wseq, s.wseq); nw += s.nw; oob += s.oob;
                 rd0 = hstep(rd0, set_digest(s.reads[0]));
                 // reference: snapshot semantics
-                RefSel sel(w.dst, dims), s1(w.src, dims), s2(w.src2, dims);
+                RefSel sel = Maker::is_diag() ? RefSel::diagonal(dims[0]) : RefSel(w.dst, dims); RefSel s1(w.src, dims), s2(w.src2, dims);
                 std::vector<Poly> old = ref;
                 for (long jf = 0; jf < sel.total; ++jf) {
                     Poly r;
@@ -156,5 +161,6 @@ struct Runner<T, RDims<E...>, Maker, D...> {
 // VW(T, (E...), (D...), "script")
 #define VW(T, RD, DD, SCRIPT) vw::Runner<T, vw::RDims<VW_UNPACK RD>, vw::DynMaker, VW_UNPACK DD>::go(SCRIPT)
 // VWF(T, (E...), (D...), (fseq<..>, fseq<..>), "script")
+#define VWD(T, RD, DD, SCRIPT) vw::Runner<T, vw::RDims<VW_UNPACK RD>, vw::DiagMaker, VW_UNPACK DD>::go(SCRIPT)
 #define VWF(T, RD, DD, FS, SCRIPT) vw::Runner<T, vw::RDims<VW_UNPACK RD>, vw::FixMaker<VW_UNPACK FS>, VW_UNPACK DD>::go(SCRIPT)
 
